@@ -283,3 +283,40 @@ type flushRec struct {
 }
 
 func (f *flushRec) Flush() { f.flushed++ }
+
+
+// layerRef: what a layer renders given the block written at its call site (lexical scoping).
+func layerRef(kind int, tag, block string) string {
+	switch kind {
+	case 0:
+		return "<s>" + tag + ":" + block + "</s>"
+	case 1:
+		return "<s>" + tag + ":<nav></nav>" + block + "</s>"
+	case 2:
+		return "<s>" + tag + ":<b>nav</b></s><s>" + tag + ":</s><main>" + block + "</main>"
+	}
+	return "<s>" + tag + ":</s><s>" + tag + ":<b>nav</b></s><main>" + block + "</main>"
+}
+
+// VerifC13Layers: generated layers between a caller and a slot component - a layer whose block
+// is nothing but its own children slot (pure pass-through), one that adds markup, layouts that
+// call a slot component with a block and without one before rendering their own slot - nested
+// in each other, with and without blocks at the call sites.
+func VerifC13Layers() {
+	outer, inner := symInt("outer"), symInt("inner")
+	symAssume(outer >= 0 && outer < 4 && inner >= 0 && inner < 4)
+	ob, ib := symBool("outerBlock"), symBool("innerBlock")
+	w := &vrec{}
+	err := Layers(outer, inner, ob, ib).Render(context.Background(), w)
+	symAssert(err == nil, "render returns nil")
+	symCover("layers")
+	want := layerRef(outer, "o", "")
+	if ob {
+		in := layerRef(inner, "i", "")
+		if ib {
+			in = layerRef(inner, "i", "<u>x</u>")
+		}
+		want = layerRef(outer, "o", "<i>o</i> "+in) // the line break after an inline element is a space
+	}
+	symAssertEq(string(w.b), want, "every layer hands exactly the block of its own call site to the slot it wraps, and nothing to the others")
+}
